@@ -452,6 +452,32 @@ def ord_rule(repo, mir, res, rule="ORD"):
     res.check(len(creators) == 3, rule, f"{rule}:{fq}:creators", f"{len(creators)} destination-opening sites (script, --regex, --dfa)", fn.loc())
 
 
+def stdout_rule(repo, res, rule="STDOUT"):
+    """`a diagnostic on stderr, nothing on stdout but the script`: in the shipped crates nothing is printed with print!/println!/dbg!, and
+    std::io::stdout() is taken only by the destination opener of main.rs (the function returning a boxed `dyn Write`, for the `-`
+    destination).  A diagnostic printed with println! lands inside the script when the destination is `-`."""
+    bad = []
+    n = 0
+    for q, fn in sorted(repo.fns.items()):
+        if q.startswith("build::"):
+            continue
+        is_opener = fn.module == "main" and "dynWrite" in "".join((fn.node.get("ret") or "").split())
+        pm = None
+        for x in A.walk(fn.body):
+            if x["k"] == "Macro" and x["name"].split("::")[-1] in ("print", "println", "dbg"):
+                # an informational mode that prints and leaves before anything is compiled (`--version`): the enclosing branch diverges
+                pm = pm or A.parent_map(fn.body)
+                gs = [g for g in A.guards_of(x, pm) if g[0]["k"] == "If" and g[1] == "then"]
+                if fn.qname == "main::main" and gs and A.diverges(gs[0][0]["then"]):
+                    continue
+                bad.append(f"{q}: {x['name']}! at {fn.file}:{x['l']}")
+            elif x["k"] == "Call" and x["func"]["k"] == "Path" and x["func"]["path"].split("::")[-1] == "stdout" and "io" in x["func"]["path"]:
+                n += 1
+                if not is_opener:
+                    bad.append(f"{q}: io::stdout() at {fn.file}:{x['l']}")
+    res.check(not bad and n >= 1, rule, f"{rule}:only-the-script-goes-to-stdout", f"no print!/println!/dbg! in the shipped code; io::stdout() taken {n}x, only by the destination opener" if not bad else f"text other than the script can reach stdout: {bad[:4]}", "src/main.rs")
+
+
 def spanline_rule(repo, res, rule="SPANLINE"):
     """Discharge of the `dep-contract:chic` rows (chic / annotate-snippets subtract column_start from column_end of one
     source line): HumanSpan::from_range may take the end column from the *later* position only when both positions are
@@ -571,6 +597,9 @@ def run(repo, res, tier):
     n_sk = SK.skips_rule(repo, res, tables.load("skips")["row"], only={"check::get_nonterminals_resolution_order", "check::traverse_nonterminal_dependencies_dfs", "check::get_not_depended_on_nonterminals"})
     res.floor("SKIPS", n_sk, 3)
     exit_rule(repo, mir, reach, inv, res)
+    stdout_rule(repo, res)
+    from . import c08
+    c08.graph_walkers(repo, res)  # `does not hang`: the graph walks of the ambiguity checks are linear only while their visited sets only grow
     rec_rule(repo, mir, reach, res)
     ord_rule(repo, mir, res)
     spanline_rule(repo, res)
